@@ -207,6 +207,11 @@ class Builder(object):
     def t_Subscript(self, node):
         base = simp(self.t(node.value))
         idx = self.t_index(node.slice)
+        # element of a list/tuple display whose value is known (one-element "cells" such as maxfun = [evaluations])
+        if isinstance(base, tuple) and base and base[0] in ('list', 'tuple'):
+            k = poly_const(idx) if isinstance(idx, tuple) else None
+            if k is not None and k.denominator == 1 and -len(base) + 1 <= int(k) < len(base) - 1:
+                return base[1:][int(k)]
         return ('sub', base, idx)
 
     def t_index(self, s):
@@ -247,7 +252,7 @@ class Builder(object):
         if isinstance(op, ast.Mod) and (isinstance(node.left, ast.Constant) and isinstance(node.left.value, str)):
             return ('fmt', a, simp(b))
         if isinstance(op, ast.Add):
-            if self._is_str(a) or self._is_str(b) or self._is_seq(a) or self._is_seq(b):
+            if self._is_str(a) or self._is_str(b) or self._is_seq(a) or self._is_seq(b) or (isinstance(a, tuple) and a and a[0] == 'concat'):
                 return ('concat', simp(a), simp(b))
             return padd(a, b)
         if isinstance(op, ast.Sub):
@@ -413,6 +418,17 @@ class Builder(object):
             k = self._flat(self.t_attr_raw(target))
             if k:
                 self.env[k] = value_term
+        elif isinstance(target, ast.Subscript) and isinstance(target.value, ast.Name) and \
+                isinstance(self.env.get(target.value.id), tuple) and self.env[target.value.id][:1] == ('list',):
+            # store into a known list display: cell[k] = v
+            cur = self.env[target.value.id]
+            k = poly_const(self.t_index(target.slice)) if not isinstance(target.slice, ast.Slice) else None
+            if k is not None and k.denominator == 1 and -len(cur) + 1 <= int(k) < len(cur) - 1:
+                elems = list(cur[1:])
+                elems[int(k)] = simp(value_term)
+                self.env[target.value.id] = ('list',) + tuple(elems)
+            else:
+                self.env.pop(target.value.id, None)
         elif isinstance(target, (ast.Tuple, ast.List)):
             vt = simp(value_term)
             for i, e in enumerate(target.elts):
@@ -441,11 +457,17 @@ class Builder(object):
             v = self.t(st.value)
             op = type(st.op)
             if op is ast.Add:
-                r = padd(cur, v)
+                if self._is_str(cur) or self._is_str(v) or self._is_seq(cur) or self._is_seq(v) or (isinstance(cur, tuple) and cur and cur[0] == 'concat'):
+                    r = ('concat', simp(cur), simp(v))     # sequence/str concatenation keeps its order (same as `cur = cur + v`)
+                else:
+                    r = padd(cur, v)
             elif op is ast.Sub:
                 r = padd(cur, pneg(v))
             elif op is ast.Mult:
-                r = pmul(cur, v)
+                if self._is_seq(cur) or self._is_seq(v) or self._is_str(cur) or self._is_str(v):
+                    r = ('repeat', simp(cur), simp(v))
+                else:
+                    r = pmul(cur, v)
             elif op is ast.Div:
                 r = pdiv(cur, v)
             else:
@@ -464,6 +486,8 @@ def show(t, depth=0):
     """human-readable rendering of a term"""
     if not isinstance(t, tuple):
         return repr(t)
+    if not t:
+        return '()'
     k = t[0]
     if k == 'poly':
         if not t[1]:
